@@ -34,6 +34,48 @@ def run(ctx):
                     replay={"vaa": {k: r[k] for k in r if k != "mon"}})
     ctx.cov["traces_validated_against_impl"] = nb
     ctx.cov["mismatches"] = len(bad)
+    # a contract-side body offset that no longer depends on the signature count alone: look for the VAA shape on which it disagrees with Go
+    st = ctx.cov.get("extractors", {}).get("ral_parsevaa")
+    if isinstance(st, str) and "body slice starts at" in st:
+        import re, os
+        try:
+            src = open(os.path.join(core.REPO, "alephium/contracts/governance.ral")).read()
+            m = re.search(r'let body = byteVecSlice!\(data, ([^,]+), size!\(data\)\)', src)
+            expr = m.group(1)
+            hit = None
+            for n in range(1, 20):
+                q = 2 * n // 3 + 1
+                for k in range(q, n + 1):
+                    env = {"signatureSize": k, "quorumSize": q, "guardianSize": n}
+                    off = eval(re.sub(r'/', '//', expr), {"__builtins__": {}}, env)
+                    if off != 6 + 66 * k and hit is None:
+                        hit = (n, k, off)
+            if hit:
+                n, k, off = hit
+                ctx.problem("monitor", "governance.ral hashes the VAA body from another offset than the Go encoder wrote it at",
+                            "guardian set of %d, VAA with %d signatures: Ralph slices the body from byte %d (`%s`), Go's body starts at byte %d" % (n, k, off, expr, 6 + 66 * k),
+                            concrete=True, replay={"guardian_set_size": n, "signatures": k, "ralph_body_offset_expr": expr, "ralph_body_offset": off, "go_body_offset": 6 + 66 * k},
+                            key="C04:ralph-body-offset")
+        except Exception as e:  # the search is best effort; the broken extractor is reported anyway
+            ctx.say("ralph offset search failed: %r" % (e,))
+    # the node side of "every guardian builds the same VAA from the message's fields": the real handleMessage on generated and scripted
+    # chain messages (incl. the zero time, pre-1970, post-2106, sub-second timestamps); the digest it signs must be the digest of the VAA
+    # built from the fields alone (harness-side construction, x/crypto/sha3 called directly)
+    import proc_common as P
+    prow = P.run_harness(ctx)
+    if prow is not None:
+        nmsg = sum(1 for h in prow for o in h["ops"] if o["k"] == "msg")
+        ctx.cov["processor_messages_checked"] = nmsg
+        seen = set()
+        for h in prow:
+            for line in h["mon"]:
+                c = P.mon_class(line)
+                if c is None:
+                    ctx.problem("machinery", line, "processor harness, history %s" % h["id"])
+                elif c == "C04" and line not in seen:
+                    seen.add(line)
+                    ctx.problem("monitor", line, "observed on the real handleMessage, history %s (%s)" % (h["id"], h.get("shape")), concrete=True,
+                                replay=P.replay_obj(h, line), key="C04:digest-not-a-function-of-message-fields")
     ctx.assumptions = ["Keccak-256 is an uninterpreted function in the theorems; the harness checks SigningMsg = keccak(keccak(model body)) with x/crypto/sha3 called directly",
                        "contract sources are read (extracted layouts), not executed"]
 
